@@ -63,7 +63,7 @@ fn gen_command(rng: &mut Rng, prefix: &str, ws: &str) -> (Vec<String>, String) {
 
 pub fn gen(prop: &str, seed: u64, index: u64, _tier: Tier) -> Case {
     let mut rng = rng_for(seed, prop, index, "case");
-    let variant = *rng.pick(&["env", "env", "env", "argv", "argv", "status", "cli-env", "cli-guard"]);
+    let variant = *rng.pick(&["env", "env", "env", "argv", "argv", "status", "cli-env", "cli-guard", "stdout"]);
     let mut p = Project::default();
     // the base directory sits below the tree root so that an ancestor and an unrelated cwd exist
     let base = "w/base".to_string();
@@ -75,6 +75,7 @@ pub fn gen(prop: &str, seed: u64, index: u64, _tier: Tier) -> Case {
     let mut params = BTreeMap::new();
     let n_src = rng.range(1, 3);
     let mut expect_err = false;
+    let mut src_paths: Vec<String> = vec![];
     for i in 0..n_src {
         let depth = rng.below(4);
         let dir = join(&base, DEPTH_DIRS[depth]);
@@ -84,8 +85,23 @@ pub fn gen(prop: &str, seed: u64, index: u64, _tier: Tier) -> Case {
             _ => format!("s{i}.txtpp"),
         };
         let path = join(&dir, &name);
+        src_paths.push(path.clone());
         let mut lines: Vec<String> = vec!["begin".into()];
         match variant {
+            "stdout" => {
+                // more than a read buffer of multi-byte characters, at every alignment
+                let pad = rng.below(4);
+                let ch = *rng.pick(&["\u{20ac}", "\u{e9}", "\u{1f600}", "\u{2713}x"]);
+                let reps = *rng.pick(&[3000usize, 2731, 9000, 30000, 100000]);
+                let mut data = "a".repeat(pad);
+                for _ in 0..reps {
+                    data.push_str(ch);
+                }
+                data.push('\n');
+                p.add_file(&join(&dir, &format!("big{i}.txt")), B(data.clone().into_bytes()));
+                lines.push(format!("-TXTPP#run cat big{i}.txt"));
+                params.insert(format!("stdout.{path}"), format!("big{i}.txt"));
+            }
             "env" | "cli-env" | "cli-guard" => {
                 lines.push("-TXTPP#run pwd".into());
                 // a different prefix: the same one would make this line a continuation of `pwd`
@@ -139,7 +155,20 @@ pub fn gen(prop: &str, seed: u64, index: u64, _tier: Tier) -> Case {
         t.push('\n');
         p.add_file(&path, B(t.into_bytes()));
     }
-    if matches!(variant, "env") && rng.chance(1, 3) {
+    let mut only_input: Option<String> = None;
+    if matches!(variant, "env") && n_src >= 2 && rng.chance(1, 3) {
+        // the second source is reached as a dependency of the first, which alone is requested
+        let (s0, s1) = (src_paths[0].clone(), src_paths[1].clone());
+        if let (Some(d0), Some(o1)) = (p.file(&s0).cloned(), crate::names::out_path(&s1)) {
+            let dir0 = tree::parent_rel(&s0).to_string();
+            let t = d0.lossy();
+            let t = t.trim_end_matches("end\n").to_string() + &format!("TXTPP#after {}\nend\n", gen::rel_path(&dir0, &o1));
+            p.set_file(&s0, B(t.into_bytes()));
+            only_input = Some(gen::rel_path(&base, &s0));
+            params.insert("dependency_first".into(), "true".into());
+        }
+    }
+    if matches!(variant, "env") && only_input.is_none() && rng.chance(1, 3) {
         // w/base-common/part.txt.txtpp, included from a source directly in the base directory
         p.add_dir("w/base-common");
         p.add_file(
@@ -155,6 +184,9 @@ pub fn gen(prop: &str, seed: u64, index: u64, _tier: Tier) -> Case {
     params.insert("expect_err".into(), format!("{expect_err}"));
     let mut cfg = RunCfg::simple(ModeS::Build, &base, vec![".".into()], *rng.pick(&gen::KS));
     cfg.recursive = true;
+    if let Some(i) = only_input {
+        cfg.inputs = vec![i];
+    }
     match variant {
         "cli-env" | "cli-guard" => {}
         _ => {
@@ -413,6 +445,39 @@ pub fn run(case: &Case, ctx: &mut Ctx) -> CaseOutcome {
                     err_brief(e)
                 ),
             ),
+            _ => {}
+        },
+        "stdout" => match &last.sim.verdict {
+            Verdict::Ok => {
+                for s in &a.sources {
+                    let big = match case.params.get(&format!("stdout.{}", s.path)) {
+                        Some(b) => join(&s.dir, b),
+                        None => continue,
+                    };
+                    let data = case.project.file(&big).map(|d| d.0.clone()).unwrap_or_default();
+                    let mut want = b"begin\n".to_vec();
+                    want.extend_from_slice(&data);
+                    want.extend_from_slice(b"end\n");
+                    let got = tree::file_bytes(&last.after, &s.out).unwrap_or(&[]);
+                    ctx.stats.count("c17.big_stdout_checked");
+                    if got != want.as_slice() {
+                        let at = got.iter().zip(want.iter()).position(|(x, y)| x != y).unwrap_or(got.len().min(want.len()));
+                        out.violate(
+                            "C17",
+                            "run-output-not-spliced",
+                            format!(
+                                "{}: stdout of `cat {}` ({} bytes of multi-byte text) is not the directive result: output has {} bytes, expected {}, first difference at byte {at}",
+                                s.path,
+                                big,
+                                data.len(),
+                                got.len(),
+                                want.len()
+                            ),
+                        );
+                    }
+                }
+            }
+            Verdict::Err(e) => out.violate("C17", "succeeding-command-rejected", format!("`cat` of a text file failed: {}", err_brief(e))),
             _ => {}
         },
         "argv" => match &last.sim.verdict {
